@@ -118,6 +118,10 @@ var chunkScripts = []string{
 	"a=5;-a",
 	"a=5;b=2;+b;a",
 	"x=1;y=3;-x;y",
+	// macros defined before use, adjacent definitions in one chunk or split over chunks
+	"m1 = macro(x){quote(unquote(x)*2)}\nm2 = macro(y){quote(unquote(y)+1)}\nr1 = m1(21)\nr2 = m2(41)\nprintln(\"r1\", r1, \"r2\", r2)",
+	"a=1\nm1 = macro(x){quote(unquote(x)+unquote(x))}\nm2 = macro(x,y){quote(unquote(y)-unquote(x))}\nm3 = macro(){quote(7)}\nprintln(m1(a), m2(1,5), m3())\nm1(m2(2,9))",
+	"d1 = macro(x){quote(println(unquote(x)))}\nd2 = macro(x){quote(unquote(x))}\nd1(\"one\")\nd1(d2(\"two\"))\nd2(3)",
 }
 
 func chunksGen(tier string, r *rng, emit func(string)) {
